@@ -26,6 +26,14 @@ const fn parse(s: Option<&str>, d: usize) -> usize {
     }
 }
 
+/// pre-allocation oracle hook: harness crates that check "allocation related to input size" set
+/// `PREALLOC_LIMIT`; a `with_capacity(n)` request above it fails the C09-ALLOC assertion
+pub static mut PREALLOC_LIMIT: usize = usize::MAX;
+pub fn on_with_capacity(n: usize) {
+    let lim = unsafe { PREALLOC_LIMIT };
+    assert!(n <= lim, "C09-ALLOC: HashMap::with_capacity request unrelated to input size");
+}
+
 #[cfg(kani)]
 fn nondet_below(n: usize) -> usize {
     if n <= 1 {
@@ -122,7 +130,10 @@ impl<T> Vec<T> {
     pub fn retain<F: FnMut(&T) -> bool>(&mut self, mut f: F) {
         let mut out = Self::default();
         let mut i = 0;
-        while i < self.len {
+        while i < VCAP {
+            if i >= self.len {
+                break;
+            }
             if let Some(x) = self.items[i].take() {
                 if f(&x) {
                     out.push(x);
@@ -137,7 +148,10 @@ impl<T> Vec<T> {
         T: PartialEq,
     {
         let mut i = 0;
-        while i < self.len {
+        while i < VCAP {
+            if i >= self.len {
+                break;
+            }
             if self.items[i].as_ref() == Some(x) {
                 return true;
             }
@@ -150,7 +164,10 @@ impl<T: Clone> Clone for Vec<T> {
     fn clone(&self) -> Self {
         let mut out = Self::default();
         let mut i = 0;
-        while i < self.len {
+        while i < VCAP {
+            if i >= self.len {
+                break;
+            }
             out.items[i] = self.items[i].clone();
             i += 1;
         }
@@ -164,7 +181,10 @@ impl<T: PartialEq> PartialEq for Vec<T> {
             return false;
         }
         let mut i = 0;
-        while i < self.len {
+        while i < VCAP {
+            if i >= self.len {
+                break;
+            }
             if self.items[i] != o.items[i] {
                 return false;
             }
@@ -302,7 +322,10 @@ impl<K: Clone, V: Clone, const ORD: u8> Clone for SlotMap<K, V, ORD> {
     fn clone(&self) -> Self {
         let mut out = Self::default();
         let mut i = 0;
-        while i < self.len {
+        while i < CAP {
+            if i >= self.len {
+                break;
+            }
             out.items[i] = self.items[i].clone();
             i += 1;
         }
@@ -321,7 +344,10 @@ impl<K: Ord, V: PartialEq, const ORD: u8> PartialEq for SlotMap<K, V, ORD> {
             return false;
         }
         let mut i = 0;
-        while i < self.len {
+        while i < CAP {
+            if i >= self.len {
+                break;
+            }
             let (k, v) = self.slot(i);
             match o.get(k) {
                 Some(v2) if v2 == v => {}
@@ -338,7 +364,8 @@ impl<K, V, const ORD: u8> SlotMap<K, V, ORD> {
     pub fn new() -> Self {
         Self::default()
     }
-    pub fn with_capacity(_n: usize) -> Self {
+    pub fn with_capacity(n: usize) -> Self {
+        crate::collections::on_with_capacity(n);
         Self::default()
     }
     pub fn len(&self) -> usize {
@@ -383,7 +410,10 @@ impl<K: Ord, V, const ORD: u8> SlotMap<K, V, ORD> {
         K: Borrow<Q>,
     {
         let mut i = 0;
-        while i < self.len {
+        while i < CAP {
+            if i >= self.len {
+                break;
+            }
             if self.slot(i).0.borrow() == k {
                 return Some(i);
             }
@@ -426,7 +456,10 @@ impl<K: Ord, V, const ORD: u8> SlotMap<K, V, ORD> {
         if ORD == 0 {
             // keep ascending key order
             let mut i = 0;
-            while i < self.len {
+            while i < CAP {
+            if i >= self.len {
+                break;
+            }
                 if self.slot(i).0 > &k {
                     pos = i;
                     break;
@@ -520,7 +553,10 @@ impl<K: Ord, V, const ORD: u8> SlotMap<K, V, ORD> {
     pub fn retain<F: FnMut(&K, &mut V) -> bool>(&mut self, mut f: F) {
         let mut out = Self::default();
         let mut i = 0;
-        while i < self.len {
+        while i < CAP {
+            if i >= self.len {
+                break;
+            }
             if let Some((k, mut v)) = self.items[i].take() {
                 if f(&k, &mut v) {
                     out.items[out.len] = Some((k, v));
@@ -768,7 +804,10 @@ impl<T, const ORD: u8> SlotSet<T, ORD> {
 impl<T: PartialEq, const ORD: u8> SlotSet<T, ORD> {
     fn find(&self, x: &T) -> Option<usize> {
         let mut i = 0;
-        while i < self.m.len {
+        while i < CAP {
+            if i >= self.m.len {
+                break;
+            }
             if self.m.slot(i).0 == x {
                 return Some(i);
             }
@@ -813,7 +852,10 @@ impl<T: PartialEq, const ORD: u8> SlotSet<T, ORD> {
     pub fn retain<F: FnMut(&T) -> bool>(&mut self, mut f: F) {
         let mut out = Self::default();
         let mut i = 0;
-        while i < self.m.len {
+        while i < CAP {
+            if i >= self.m.len {
+                break;
+            }
             if let Some((k, _)) = self.m.items[i].take() {
                 if f(&k) {
                     out.m.items[out.m.len] = Some((k, ()));
